@@ -12,13 +12,19 @@
 (*               let / rec binds the name, innermost first; the environment *)
 (*               set itself is evaluated OUTSIDE the with.                  *)
 (*   k = "lit" : n = v;   "ref" : n = m;   "inh" : inherit n;               *)
+(*   k = "inhfrom" : inherit (m) n;  - select n from what m resolves to      *)
+(*   k = "setv" : n = { sv };  a literal set (only literal members), the     *)
+(*               possible source of an inherit-from                          *)
+(*   formals   : `({ n ? v, .. }: body) { n = arg; .. }' - a directly        *)
+(*               applied function; k = "formal" with default v (or 0) and   *)
+(*               supplied argument arg (or 0): the ARGUMENT wins             *)
 (* The reference `x = name' sits in a holder set below the last frame (or   *)
 (* in the last frame itself when that is a set kind - the harness decides). *)
 (***************************************************************************)
 EXTENDS Naturals, Sequences, FiniteSets, TLC
 
 BindIdx(f, n) == LET s == {i \in 1..Len(f.binds) : f.binds[i].n = n} IN IF s = {} THEN 0 ELSE CHOOSE i \in s : \A j \in s : i <= j
-Lexical(f) == f.kind \in {"let", "rec"}
+Lexical(f) == f.kind \in {"let", "rec", "formals"}
 
 \* result: [ok |-> TRUE, v |-> literal, at |-> <<frame, name>>]
 \*     or  [ok |-> FALSE, why |-> "unbound" | "cycle", last |-> the last binding (name = value) that was followed,
@@ -31,6 +37,17 @@ Follow(ch, j, b, seen, last) ==
     ELSE LET s2 == seen \cup {<<j, b.n>>}
              inner == IF Lexical(ch[j]) THEN j ELSE j - 1 IN     \* scope in which the right-hand side is evaluated
          CASE b.k = "lit" -> [ok |-> TRUE, v |-> b.v, at |-> <<j, b.n>>]
+           [] b.k = "formal" -> IF b.arg # 0 THEN [ok |-> TRUE, v |-> b.arg, at |-> <<j, b.n>>]
+                                ELSE IF b.v # 0 THEN [ok |-> TRUE, v |-> b.v, at |-> <<j, b.n>>]
+                                ELSE [ok |-> FALSE, why |-> "unbound", last |-> last]
+           [] b.k = "setv" -> [ok |-> TRUE, v |-> 999, sv |-> b.sv, at |-> <<j, b.n>>]            \* a set, not a literal
+           [] b.k = "inhfrom" ->
+                LET src == Walk(ch, inner, b.m, s2, last) IN
+                IF ~src.ok THEN src
+                ELSE IF src.v # 999 THEN [ok |-> FALSE, why |-> "unbound", last |-> last]          \* source is not a set
+                ELSE LET hit == {i \in 1..Len(src.sv) : src.sv[i].n = b.n} IN
+                     IF hit = {} THEN [ok |-> FALSE, why |-> "unbound", last |-> last]
+                     ELSE [ok |-> TRUE, v |-> src.sv[CHOOSE i \in hit : TRUE].v, at |-> <<src.at[1], b.m>>]
            [] b.k = "ref" -> Walk(ch, inner, b.m, s2, <<j, b.n>>)
            [] b.k = "inh" -> Walk(ch, j - 1, b.n, s2, last)          \* inherit: from outside frame j
 
